@@ -94,6 +94,7 @@ def fl(x):
 
 
 def jarr(x):
+    impl()                       # x64 must be enabled BEFORE the first jax array is made (else it is a float32 array)
     import jax.numpy as jnp
     return jnp.array(fl(x))
 
